@@ -54,7 +54,7 @@ def gen_program(rng):
     for _ in range(rng.randint(2, 3)):
         n = new()
         if rng.random() < 0.5:
-            prog.append(dict(op="new_exact_dgm", dgms=[rand_bars(rng, 0, 12, rng.randint(1, 4))], hom=0, res=[n]))
+            prog.append(dict(op="new_exact_dgm", dgms=[rand_bars(rng, 0, 12, rng.randint(1, 4))], hom=0, res=[n], lazy=int(rng.random() < 0.4)))
         else:
             prog.append(dict(op="new_exact_cp", cps=rand_cp(rng, 0, 10), hom=0, res=[n]))
         exact.append(n)
@@ -62,7 +62,7 @@ def gen_program(rng):
     for _ in range(rng.randint(2, 3)):
         n = new()
         if rng.random() < 0.5:
-            prog.append(dict(op="new_approx_dgm", dgms=[[[a + rng.randint(0, (nn - 1) * s - 1), 0] for _ in range(rng.randint(1, 3))]], hom=0, grid=[a, s, nn], res=[n]))
+            prog.append(dict(op="new_approx_dgm", dgms=[[[a + rng.randint(0, (nn - 1) * s - 1), 0] for _ in range(rng.randint(1, 3))]], hom=0, grid=[a, s, nn], res=[n], lazy=int(rng.random() < 0.4)))
             for p in prog[-1]["dgms"][0]:
                 p[1] = rng.randint(p[0] + 1, a + (nn - 1) * s)
             prog[-1]["dgms"][0].append([a, a + (nn - 1) * s])   # a bar spanning the grid: the sampled landscape is never the "empty" sentinel
@@ -79,8 +79,22 @@ def gen_program(rng):
     prog.append(dict(op="new_exact_cp", cps=rand_cp(rng, 0, 6), hom=1, res=[oh]))
     fr = 0
     for _ in range(rng.randint(3, 9)):
-        kind = rng.choice(["e", "e", "a", "a", "snap", "lc", "rej"])
-        if kind in ("e", "a"):
+        kind = rng.choice(["e", "e", "a", "a", "snap", "lc", "rej", "extreme"])
+        if kind == "extreme":
+            # scalars of extreme magnitude (|c| far below 1e-8, or huge): the result is decoded in the unit 'c' (an exact power of two) and
+            # must be the operand itself; it is not used as an operand afterwards
+            pool = rng.choice([exact, approx])
+            k = rng.choice([27, 30, 40, 60])
+            sign = rng.choice([1, 1, -1])
+            if rng.random() < 0.5:
+                prog.append(dict(op="div", args=[rng.choice(pool)], c=[sign, 2 ** k], unit=[sign * 2 ** k, 1], res=[new()]))     # P / (+-2^-k)
+            else:
+                op = rng.choice(["mul", "rmul"])
+                if rng.random() < 0.5:
+                    prog.append(dict(op=op, args=[rng.choice(pool)], c=[sign, 2 ** k], unit=[sign, 2 ** k], res=[new()]))       # P * (+-2^-k)
+                else:
+                    prog.append(dict(op=op, args=[rng.choice(pool)], c=[sign * 2 ** k, 1], unit=[sign * 2 ** k, 1], res=[new()]))   # P * (+-2^k)
+        elif kind in ("e", "a"):
             pool = exact if kind == "e" else approx
             op = rng.choice(["add", "sub", "add", "sub", "neg", "mul", "rmul", "div"])
             n = new()
@@ -126,7 +140,7 @@ def gen_program(rng):
 def to_job(prog, e):
     out = []
     for ins in prog:
-        j = {k: v for k, v in ins.items() if k in ("op", "args", "res", "hom")}
+        j = {k: v for k, v in ins.items() if k in ("op", "args", "res", "hom", "lazy")}
         if "dgms" in ins:
             j["dgms"] = [[[e.f(b), e.f(d)] for b, d in dg] for dg in ins["dgms"]]
         if "cps" in ins:
@@ -154,6 +168,7 @@ def to_case(prog, evs, e):
     lattice = 1
     for ins, ev in zip(prog, evs):
         news = []
+        unit = Fraction(ins["unit"][0], ins["unit"][1]) if ins.get("unit") else Fraction(1)
         for name, c in ev.get("news", {}).items():
             try:
                 if c["kind"] == 1:
@@ -162,7 +177,7 @@ def to_case(prog, evs, e):
                         pts = []
                         for x, y in d:
                             fx = (Fraction(unfl(x)) - e.t) / e.s
-                            fy = Fraction(unfl(y)) / e.s
+                            fy = Fraction(unfl(y)) / e.s / unit
                             if fx.denominator != 1:
                                 raise ValueError
                             pts.append([int(fx), fy]); fr_y.append(fy)
@@ -175,7 +190,7 @@ def to_case(prog, evs, e):
                     st = (b - a) / (n - 1)
                     if a.denominator != 1 or st.denominator != 1 or st <= 0:
                         raise ValueError
-                    rows = [[Fraction(unfl(y)) / e.s for y in row] for row in c["vals"]]
+                    rows = [[Fraction(unfl(y)) / e.s / unit for y in row] for row in c["vals"]]
                     if any(len(r) != n for r in rows):
                         raise ValueError
                     fr_y += [y for r in rows for y in r]
@@ -203,7 +218,7 @@ def to_case(prog, evs, e):
                 cont = [[sc(y) for y in row] for row in o[6]]
             nn.append(o[:6] + [cont])
         op = "new" if ins["op"].startswith("new_") else ins["op"]
-        events.append(dict(op=op, args=ins.get("args", []), c=ins.get("c", [1, 1]), coeffs=ins.get("coeffs", []), res=ins.get("res", []),
+        events.append(dict(op=op, args=ins.get("args", []), c=([1, 1] if ins.get("unit") else ins.get("c", [1, 1])), coeffs=ins.get("coeffs", []), res=ins.get("res", []),
                            raised=ev["raised"], mustraise=ins.get("mustraise", 0), digs=ev["digs"], news=nn, gridspec=ins.get("grid", [0, 0, 0]),
                            arityok=int("arity" not in ev)))
     return dict(q=q, lattice=lattice, events=events)
